@@ -286,6 +286,72 @@ def one(seed, length):
     return len(prog), diffs
 
 
+def holes_program(root, seed):
+    """sparse files: st_blocks after writes separated by seeks, a truncate that extends, writes into a hole, a cut"""
+    rng = random.Random(seed)
+    p = os.path.join(root, "sparse.bin")
+    out = []
+
+    def blocks():
+        st = os.stat(p)
+        return (st.st_size, st.st_blocks)
+    with open(p, "wb") as f:
+        f.write(b"x" * rng.choice([1, 1000, 4096, 5000]))
+        f.seek(rng.choice([4096, 40000, 65536, 70001]), 1)
+        f.write(b"y" * rng.choice([1, 1000, 4097]))
+    out.append(blocks())
+    with open(p, "r+b") as f:
+        f.truncate(rng.choice([100000, 131072, 200001]))
+    out.append(blocks())
+    with open(p, "r+b") as f:
+        f.seek(rng.choice([20000, 50000, 90000]))
+        f.write(b"z" * rng.choice([1, 4096, 9000]))
+    out.append(blocks())
+    with open(p, "r+b") as f:
+        f.truncate(rng.choice([10, 30000, 60000]))
+    out.append(blocks())
+    with open(p, "wb") as f:
+        f.write(b"w" * 5000)
+    out.append(blocks())
+    return out
+
+
+def holes(seed, n=12):
+    """SimFS's block-allocation model against the host, where the host's temporary directory supports holes"""
+    res = {"programs": 0, "mismatches": 0, "skipped": False, "first": None}
+    for i in range(n):
+        top = tempfile.mkdtemp(prefix="osu_fid_")
+        try:
+            h = holes_program(top, seed + i)
+        finally:
+            shutil.rmtree(top, ignore_errors=True)
+        if h[0][1] * 512 >= h[0][0] and h[0][0] > 16384:
+            res["skipped"] = True  # this file system stores the zero run: nothing to compare against
+            return res
+        clock = SimClock("fine", 1)
+        fs = SimFS(clock)
+
+        class Tick:
+            def __call__(self, kind, path="", n=0, mut=False):
+                clock.advance(1000)
+                return None
+
+            def owner(self):
+                return None
+        fs.hook = Tick()
+        fs.h_mkdirs("/SIMFS/t")
+        interpose.bind(fs, None, clock)
+        try:
+            s_ = holes_program("/SIMFS/t", seed + i)
+        finally:
+            interpose.unbind()
+        res["programs"] += 1
+        if h != s_:
+            res["mismatches"] += 1
+            res["first"] = res["first"] or {"seed": seed + i, "host": h, "sim": s_}
+    return res
+
+
 def main():
     ap = argparse.ArgumentParser()
     ap.add_argument("--programs", type=int, default=150)
@@ -299,8 +365,10 @@ def main():
         steps += n
         if diffs:
             bad.append({"seed": args.seed * 100000 + i, "diff": diffs[0]})
-    print(json.dumps({"programs": args.programs, "steps": steps, "mismatches": len(bad), "first": bad[:3]}))
-    return 1 if bad else 0
+    hl = holes(args.seed * 1000)
+    print(json.dumps({"programs": args.programs, "steps": steps, "mismatches": len(bad) + hl["mismatches"], "first": bad[:3],
+                      "sparse_files": hl}))
+    return 1 if (bad or hl["mismatches"]) else 0
 
 
 if __name__ == "__main__":
